@@ -1,6 +1,7 @@
 import CogentModel.Json
 import CogentModel.Model.PruneSites
 import CogentModel.Model.PruneFixed
+import CogentModel.Model.PruneGap
 import Driver.PruneCmds
 /-! JSON commands for the second part of C02 (`Model/PruneSites.lean`): the site-class HMM and several loci. -/
 open CogentModel CogentModel.Prune CogentModel.PruneSites CogentModel.PruneFixed
@@ -16,6 +17,8 @@ def natList (j : J) : Except String (List Nat) := j.toListOf J.toNat
 * `old`   — `siteHmmOld`: the loop as it was before fix 6668db777 (`dot(switch_probs, state_probs)`), so that a regression
   to that side can be named,
 * `spec`  — `bruteHmm`: the sum over all `2^n` patch paths (only when `brute` is true),
+* `bin`   — the forward recursion over the BINS with `binMatrix` (theorem `site_hmm_eq_bin_forward`: equals `code`),
+* `binspec` — `bruteHmm` over all `nb^n` BIN paths (the published definition; when `brute` and `nb^n ≤ 4096`),
 * `pprobs`, `cond`, `matrix`, `emis` — the intermediate quantities (compared with the real object's attributes) -/
 def cmdHmm (j : J) : Except String J := do
   let bprobs ← (← j.get "bprobs").toListOf J.toRat
@@ -34,7 +37,12 @@ def cmdHmm (j : J) : Except String J := do
   let code := siteHmm bprobs switch lhs index
   let old := siteHmmOld bprobs switch lhs index
   let spec := if brute then J.ofRat (bruteHmm npatch pp M es) else J.null
-  return J.obj [("code", J.ofRat code), ("old", J.ofRat old), ("spec", spec),
+  let nb := bprobs.length
+  let bp : Nat → Rat := fun b => bprobs.getD b 0
+  let bes := binEmissions lhs index
+  let binf := forward nb (binMatrix bprobs switch) bp bes
+  let binspec := if brute && nb ^ index.length ≤ 4096 then J.ofRat (bruteHmm nb bp (binMatrix bprobs switch) bes) else J.null
+  return J.obj [("code", J.ofRat code), ("old", J.ofRat old), ("spec", spec), ("bin", J.ofRat binf), ("binspec", binspec),
                 ("npaths", J.ofNat (if brute then (paths npatch es.length).length else 0)),
                 ("pprobs", J.arr ((List.range npatch).map fun a => J.ofRat (pp a))),
                 ("alloc", J.arr ((List.range bprobs.length).map fun b => J.ofNat (alloc bprobs.length b))),
@@ -81,11 +89,32 @@ def cmdLfPin (j : J) : Except String J := do
                 ("internal", J.bool internal),
                 ("fixed", J.arr ((List.range m).map fun s => J.arr (ix.uniq.map fun col => J.ofRat (fixedCol s col))))]
 
+/-- `edgeinit`: `_LikelihoodTreeEdge.__init__` (branch `alignment is None`) at the level of the index arrays: `children` =
+list of `{index, nuniq}` (a child's column → unique-column array and `len(child.uniq)`).  Returns `uniq` / `counts` / `index`
+with the appended gap row (`indexedGap (gapKey …)`), the transposed `indexes`, and `wls` / `full` = `lnLCompressedGap` /
+`fullLengthGap` with the integer-valued `g key = -(first component)` (the harness gives the real kernels likelihoods `2^g`) -/
+def cmdEdgeInit (j : J) : Except String J := do
+  let kids ← (← j.get "children").toListOf fun c => do
+    return (← natList (← c.get "index"), ← (← c.get "nuniq").toNat)
+  let n := (kids.map fun k => k.1.length).foldl min ((kids.head?.map fun k => k.1.length).getD 0)
+  let values : List (List Nat) := (List.range n).map fun col => kids.map fun k => k.1.getD col 0
+  let gap := gapKey (kids.map (·.2))
+  let ix := indexedGap gap values
+  let g : List Nat → Int := fun k => - (k.headD 0 : Int)
+  return J.obj [("uniq", J.arr (ix.uniq.map fun c => J.arr (c.map J.ofNat))),
+                ("counts", J.arr (ix.counts.map J.ofNat)),
+                ("index", J.arr (ix.index.map J.ofNat)),
+                ("indexes", J.arr ((List.range kids.length).map fun a => J.arr (ix.uniq.map fun row => J.ofNat (row.getD a 0)))),
+                ("wls", J.ofInt (lnLCompressedGap g gap values)),
+                ("plain", J.ofInt ((values.map g).sum)),
+                ("full", J.arr ((fullLengthGap g gap values).map J.ofInt))]
+
 def handle (cmd : String) (j : J) : Option (Except String J) :=
   match cmd with
   | "hmm" => some (cmdHmm j)
   | "loci" => some (cmdLoci j)
   | "lfpin" => some (cmdLfPin j)
+  | "edgeinit" => some (cmdEdgeInit j)
   | _ => none
 
 end C02Sites
